@@ -38,6 +38,14 @@ def check(ctx):
             barrier.append(dict(c, objective='barrier', box='unit', lb=[0.0] * c['n_vars'], ub=[1.0] * c['n_vars'],
                                 n_agents=max(c['n_agents'], 6), n_iter=2, hyper={}))
     chosen = chosen + barrier
+    # GP on several function sets, always compared across interpreter processes with different PYTHONHASHSEED
+    # (anything ordered by a set/dict of strings differs between processes, never inside one)
+    gps = [c for c in cfgs if c['kind'] == 'GP']
+    if gps:
+        for j, fs in enumerate(runlevel.FUNCSETS if ctx['tier'] == 'thorough' else [runlevel.FUNCSETS[5], runlevel.FUNCSETS[0], runlevel.FUNCSETS[2]]):
+            g = gps[j % len(gps)]
+            chosen.append(dict(g, functions=list(fs), n_agents=max(g['n_agents'], 10), max_depth=max(g['max_depth'], g['min_depth'] + 2),
+                               seed=g['seed'] + j, xproc=True))
     n_cross = 8 if ctx['tier'] == 'quick' else len(chosen)
     workloads = [dict(c, adv=0.0, hook='observer') for c in cfgs if c['kind'] in ('PSO', 'ABC', 'GP')][:3]
     # a workload that leaves non-zero garbage behind in freed array memory of the shapes the run will allocate
@@ -58,7 +66,8 @@ def check(ctx):
         if c['space'] != 'hyper':
             same_shape.update(lb=[-7.25] * c['n_vars'], ub=[9.5] * c['n_vars'], box='wide')
         wl = [other_hp, same_shape] + workloads[:2]
-        if n < n_cross or c['objective'] == 'barrier':
+        rp['workload'] = wl
+        if n < n_cross or c['objective'] == 'barrier' or c.get('xproc'):
             a = child(c, [], 1)
             b = child(c, wl, 2)
             mode = 'cross-process'
@@ -94,5 +103,11 @@ def search(ctx, corr, broken):
 
 def replay(prop, payload):
     a = child(payload['cfg'], [], 1)
-    b = child(payload['cfg'], [], 2)
-    return a['digest'] != b['digest'] or bool(a['touched'])
+    b = child(payload['cfg'], payload.get('workload') or [], 2)
+    if a['digest'] != b['digest'] or a['error'] != b['error'] or bool(a['touched']) or bool(b['touched']):
+        return True
+    c2 = dict(payload['cfg'], seed=payload['cfg']['seed'] + 1)
+    d = child(c2, [], 1)
+    nondeg = payload['cfg']['box'] != 'degenerate' and a['error'] is None and payload['cfg']['objective'] not in ('constant', 'zero')
+    return (nondeg and d['digest'] == a['digest'] and d.get('first_positions') == a.get('first_positions')) \
+        or (a['error'] is None and not a['stream_consumed'])
